@@ -131,7 +131,7 @@ type fsRun struct {
 	exitCode int
 }
 
-var fskillBin = "/verif/bin/fskill"
+func fskillBin() string { return filepath.Join(run.Root, "bin", "fskill") }
 
 func runFskill(workdir, dir, script string, extra []string, inject string) (*fsRun, error) {
 	logPath := filepath.Join(workdir, "strace.log")
@@ -140,7 +140,7 @@ func runFskill(workdir, dir, script string, extra []string, inject string) (*fsR
 	if inject != "" {
 		args = append(args, "-e", "inject="+inject)
 	}
-	args = append(args, fskillBin, "run", dir, script)
+	args = append(args, fskillBin(), "run", dir, script)
 	args = append(args, extra...)
 	cmd := exec.Command("strace", args...)
 	cmd.Env = append(os.Environ(), "GOMAXPROCS=1", "GOTRACEBACK=none")
@@ -226,7 +226,7 @@ func (r *fsRun) ordinal(i int) int {
 }
 
 func verifyDir(dir string) (*fsops.Verdict, error) {
-	cmd := exec.Command(fskillBin, "verify", dir)
+	cmd := exec.Command(fskillBin(), "verify", dir)
 	out, err := cmd.Output()
 	if err != nil {
 		return nil, fmt.Errorf("verify: %v", err)
